@@ -359,6 +359,13 @@ def g_203(ch, pool, ctx, opts, depth):
         out = [203000 + y] + defs + [203255] + [op] + use[:k] + [cancel] + use[k:]
     elif form == 'def_under_op':
         out = [op, 203000 + y] + defs + [203255, cancel] + use
+    elif not lead and opts.delayed and ch.bool(1, 4):
+        # the definitions stand inside a replication: its class 31 factor is a count as always, the element(s) are defined
+        # once per repetition (the last one stays), not at all when it runs zero times
+        _reserve(ctx, 2)
+        rep = [100000 + len(defs) * 1000, ch.choice([31001, 31000, 31002])] if ch.bool(2, 3) else [100000 + len(defs) * 1000 + ch.int(1, 2)]
+        out = [203000 + y] + rep + defs + [203255] + use
+        ctx.features.add('203_definitions_inside_a_replication')
     elif not lead and ch.bool(1, 3):
         # two definition lists with no cancellation between them: the values of the first stay in force
         d2 = _pick_num(ch, pool, ctx, 1)
